@@ -122,7 +122,11 @@ impl Out {
             l.len() < 6000 && !l.starts_with("c04_") && !r.starts_with("PANIC") && !r.starts_with("TIMEOUT") && !r.starts_with("ABORT")
         }).collect();
         for i in (1..cand.len()).rev() { let j = rng.below(i as u64 + 1) as usize; cand.swap(i, j); }
-        cand.truncate(300);
+        // stratified by operation kind (first token), so that rare operations are re-executed too
+        { let mut per: BTreeMap<String, usize> = BTreeMap::new(); let kinds = cand.iter().map(|i| self.ops[*i].split(' ').next().unwrap_or("").to_string()).collect::<std::collections::BTreeSet<_>>().len().max(1);
+          let quota = (300 / kinds).max(25);
+          cand.retain(|i| { let k = self.ops[*i].split(' ').next().unwrap_or("").to_string(); let c = per.entry(k).or_insert(0); *c += 1; *c <= quota }); }
+        cand.truncate(400);
         let mut order = cand.clone();
         let mut rev = cand.clone(); rev.sort(); rev.reverse();
         order.extend(rev);
@@ -137,7 +141,20 @@ impl Out {
                     "input": trunc(&l, 600), "impl": trunc(&again, 300), "expected": trunc(&r, 300), "last_op": l}));
             }
         }
-        self.stat_n("purity-recheck.ops", 2 * cand.len() as u64);
+        // immediate repeats: the same line twice in a row (one-entry memos, "seen before" fast paths, scratch buffers)
+        for &i in cand.iter().take(200) {
+            for _ in 0..2 {
+                let again = crate::exec_line(&self.ops[i]);
+                self.direct_checks += 1;
+                if again != self.impls[i] && bad < 8 {
+                    bad += 1;
+                    let (l, r) = (self.ops[i].clone(), self.impls[i].clone());
+                    self.failures.push(serde_json::json!({"what": "purity: the same operation line gave a different result when executed twice in a row (state carried across calls)",
+                        "input": trunc(&l, 600), "impl": trunc(&again, 300), "expected": trunc(&r, 300), "last_op": l}));
+                }
+            }
+        }
+        self.stat_n("purity-recheck.ops", 2 * cand.len() as u64 + 2 * cand.len().min(200) as u64);
     }
     pub fn write(&self, dir: &str) {
         std::fs::create_dir_all(dir).unwrap();
@@ -204,4 +221,24 @@ pub fn measured<T>(f: impl FnOnce() -> T) -> (T, usize, u128) {
     let t = std::time::Instant::now();
     let r = f();
     (r, PEAK.load(Ordering::Relaxed).saturating_sub(base), t.elapsed().as_micros())
+}
+
+/// a legal `io::Write` that accepts at most `max` bytes per call (short writes), and a legal `io::Read` that returns at most `max`
+/// bytes per call (short reads): codecs must produce / consume the same bytes through them as through a `Vec` / a slice
+pub struct ChunkWriter { pub buf: Vec<u8>, pub max: usize }
+impl std::io::Write for ChunkWriter {
+    fn write(&mut self, b: &[u8]) -> std::io::Result<usize> { let n = b.len().min(self.max); self.buf.extend_from_slice(&b[..n]); Ok(n) }
+    fn flush(&mut self) -> std::io::Result<()> { Ok(()) }
+}
+pub struct ChunkReader<'a> { pub data: &'a [u8], pub pos: usize, pub max: usize }
+impl<'a> std::io::Read for ChunkReader<'a> {
+    fn read(&mut self, out: &mut [u8]) -> std::io::Result<usize> { let n = out.len().min(self.max).min(self.data.len() - self.pos); out[..n].copy_from_slice(&self.data[self.pos..self.pos + n]); self.pos += n; Ok(n) }
+}
+/// encode through a one-byte-per-call writer: (bytes, reported length)
+pub fn encode_chunked<T: monero::consensus::encode::Encodable + ?Sized>(x: &T) -> (Vec<u8>, Option<usize>) {
+    let mut w = ChunkWriter { buf: vec![], max: 1 }; let r = x.consensus_encode(&mut w).ok(); (w.buf, r)
+}
+/// decode through a one-byte-per-call reader: (value, bytes consumed)
+pub fn decode_chunked<T: monero::consensus::encode::Decodable>(b: &[u8]) -> Option<(T, usize)> {
+    let mut r = ChunkReader { data: b, pos: 0, max: 1 }; let v = T::consensus_decode(&mut r).ok()?; Some((v, r.pos))
 }
